@@ -522,6 +522,14 @@ fn run(ctx: &Ctx) -> Report {
     let n = ctx.tier.pick(4_000, 120_000);
     let seed = ctx.seed;
     let mut report = crate::par::run_cases(ctx, n, |index, report| {
+        if index % 12 == 11 {
+            // resource programs whose names are reserved in one target (the generator of C05): uses of generated names that the
+            // exporters write themselves must agree with the declarations they write
+            let mut rng = Rng::for_case(seed, 0x1505, index);
+            let p = crate::gen::c05_res::generate(&mut rng);
+            resource_names_case(&p.text, &format!("gen::c05_res:{}", index), report);
+            return;
+        }
         let case = make_case(seed, index);
         let origin = format!("generated:{}:{}", index, case.mode);
         if examine(&case, &origin, seed ^ index, report) {
@@ -541,8 +549,37 @@ fn run(ctx: &Ctx) -> Report {
     report
 }
 
+/// Vulkan with buffer addresses: every `g_inlineDescriptorN.<member>` the exporter writes names a member it declared
+fn resource_names_case(text: &str, origin: &str, report: &mut Report) {
+    for mode in [Mode::NoPipeline, Mode::All] {
+        let out = rs::compile_text(text, &Opts::new(Tgt::VkBa, mode.clone()));
+        let Outcome::Ok(pipes) = &out else {
+            report.count(&format!("resource-program:not-compiled:{}", out.class()));
+            continue;
+        };
+        for pipe in pipes {
+            report.evaluations += 1;
+            let (members, uses) = crate::checks::c05::inline_descriptor_names(&pipe.source);
+            report.count_n("inline-descriptor-member-uses", uses.len() as u64);
+            for (block, member) in &uses {
+                if !members.iter().any(|(b, m)| b == block && m == member) {
+                    report.violation(
+                        "generated-name-use-without-declaration:inline-descriptor-member",
+                        &format!("the emitted Vulkan HLSL reads `g_inlineDescriptor{}.{}` but struct InlineDescriptor{} declares no such member ({})", block, member, block, origin),
+                        Json::obj().set("origin", origin).set("resource_program", text).set("emitted", pipe.source.as_str()),
+                    );
+                }
+            }
+        }
+    }
+}
+
 fn replay(ctx: &Ctx, witness: &Json) -> Report {
     let mut report = Report::new();
+    if let Some(text) = witness.get_str("resource_program") {
+        resource_names_case(text, witness.get_str("origin").unwrap_or("replay"), &mut report);
+        return report;
+    }
     // a witness stores both renderings; rebuild a placeholder-free "program" whose identifiers are the s0 names
     let (Some(t0), Some(t1)) = (witness.get_str("program_s0"), witness.get_str("program_s1")) else {
         report.inconclusive("witness without both renderings");
